@@ -2196,8 +2196,11 @@ pub fn f10() -> Fragment {
     programs.push(single(vec![
         Stmt::Res(rel(uri_lit(&["docs", "placeholders", "%7Bname%7D"]), vec![xfer(Method::Get, E::Content(vec![], None))])),
         Stmt::Res(rel(uri_lit(&["a%2Fb", "caf%C3%A9"]), vec![xfer(Method::Get, E::Content(vec![], None))])),
+    ]));
+    programs.push(single(vec![
+        Stmt::Res(rel(uri_lit(&["docs", "%7Bname%7D"]), vec![xfer(Method::Get, E::Content(vec![], None))])),
         Stmt::Res(rel(
-            E::Uri(vec![Seg::Lit("docs".into()), Seg::Lit("placeholders".into()), Seg::Var(Box::new(prop("name", str_())))], None),
+            E::Uri(vec![Seg::Lit("docs".into()), Seg::Var(Box::new(prop("name", str_())))], None),
             vec![xfer(Method::Put, E::Content(vec![], None))],
         )),
     ]));
